@@ -16,6 +16,12 @@ REAL_AXIOMS = {
     'ClassicalDedekindReals.sig_forall_dec', 'ClassicalDedekindReals.sig_not_dec',
     'FunctionalExtensionality.functional_extensionality_dep', 'Classical_Prop.classic',
 }
+# axioms (FloatAxioms.v) and primitives (PrimFloat.v, PrimInt63.v) DECLARED BY THE STANDARD LIBRARY, as Print Assumptions
+# prints them when the modules are imported (short names)
+STDLIB_FLOAT_NAMES = set('''Prim2SF_SF2Prim Prim2SF_valid SF2Prim_Prim2SF abs abs_spec add add_spec addc addcarryc addmuldiv asr classify
+classify_spec compare compare_spec compares div div_spec diveucl diveucl_21 divs eqb eqb_spec float frshiftexp frshiftexp_spec head0 int land
+ldshiftexp ldshiftexp_spec leb leb_spec lesb lor lsl lsr ltb ltb_spec ltsb lxor mod mods mul mul_spec mulc next_down next_down_spec next_up
+next_up_spec normfr_mantissa normfr_mantissa_spec of_uint63 of_uint63_spec opp opp_spec sqrt sqrt_spec sub sub_spec subc subcarryc tail0'''.split())
 FLOAT_PRIMS_PREFIX = ('PrimFloat.', 'FloatAxioms.', 'Uint63.', 'PrimInt63.', 'Sint63.', 'FloatOps.', 'Uint63Axioms.')
 
 
@@ -204,7 +210,7 @@ class Ctx:
         self.axioms = sorted(axs)
         for a in axs:
             base = a
-            if base in allowed or any(base.startswith(p) for p in FLOAT_PRIMS_PREFIX) and 'float' in allowed:
+            if base in allowed or ('float' in allowed and (any(base.startswith(p) for p in FLOAT_PRIMS_PREFIX) or base in STDLIB_FLOAT_NAMES)):
                 continue
             self.broke('axiom', a, 'axiom outside the whitelist of this property')
 
